@@ -93,6 +93,22 @@ class KaniProp:
             if r.status in ("timeout", "error", "missing", "unwind"):
                 inconclusive.append("%s: %s" % (inst.name, r.status))
                 continue
+            exp = getattr(inst, "expect_fail", None)
+            if exp:
+                # this instance must END in a documented assertion of the code under test
+                hit = [f for f in r.failed if re.search(exp, f[0])]
+                r.failed = [f for f in r.failed if not re.search(exp, f[0])]
+                if not hit:
+                    log("[%s] %s: the expected assertion (%s) was NOT violated" % (pid, inst.name, exp))
+                    verdict = self._replay_empty(pid, sc, inst)
+                    if verdict[0] == "violation":
+                        violations.append((inst, verdict[2], verdict[1]))
+                    else:
+                        inconclusive.append("%s: expected assertion not violated and native run did not confirm (%s)" % (inst.name, verdict[1]))
+                    continue
+                r.covers = {k: ("SATISFIED" if k.startswith("END") else v) for k, v in r.covers.items()}
+                if not any(k.startswith("END") for k in r.covers):
+                    r.covers["END (expected assertion reached)"] = "SATISFIED"
             # vacuity: the end of every harness must be reachable
             endc = [v for k, v in r.covers.items() if k.startswith("END")]
             if not endc or any(v != "SATISFIED" for v in endc):
@@ -186,14 +202,40 @@ class KaniProp:
                 else:
                     last = "%s profile: %s" % (profile, res)
             if ok_profiles:
-                os.makedirs(VERIF + "/replays", exist_ok=True)
-                path = VERIF + "/replays/%s.%s.json" % (pid, inst.name)
+                rdir = os.environ.get("VERIF_REPLAY_DIR", VERIF + "/replays")
+                os.makedirs(rdir, exist_ok=True)
+                path = rdir + "/%s.%s.json" % (pid, inst.name)
                 with open(path, "w") as f:
                     json.dump({"property": pid, "harness": inst.name, "expr": inst.expr, "unwind": inst.unwind,
                                "family": inst.family, "package": self.package, "tape": tape, "small": getattr(inst, "small", self.small),
                                "failed_checks": descs, "profiles_reproduced": ok_profiles,
                                "bounds": inst.bounds}, f, indent=1)
                 return ("violation", path, descs[0])
+        return ("inconclusive", last)
+
+    def _replay_empty(self, pid, sc, inst):
+        """native run on an all-zero tape (for instances whose verdict does not depend on symbolic data)"""
+        descs = []
+        okp = []
+        for profile in ("dev", "release"):
+            if self.gen_mod is nucleo_props:
+                nucleo_props.write_gen(sc, "quick", extra=[inst], small=getattr(inst, "small", self.small))
+            res, out = engine.native_replay(sc, self.package, inst.name, [], profile, small=getattr(inst, "small", self.small),
+                                            test_path=self.test_path)
+            failed = re.findall(r"REPLAY-CHECK-FAILED (.*)", out)
+            relf = [d for d in failed if relevant(pid, d, self.safety_owner)]
+            if res == "violated" and relf:
+                okp.append(profile); descs = relf
+            last = res
+        if okp:
+            rdir = os.environ.get("VERIF_REPLAY_DIR", VERIF + "/replays")
+            os.makedirs(rdir, exist_ok=True)
+            path = rdir + "/%s.%s.json" % (pid, inst.name)
+            with open(path, "w") as f:
+                json.dump({"property": pid, "harness": inst.name, "expr": inst.expr, "unwind": inst.unwind, "family": inst.family,
+                           "package": self.package, "tape": [], "small": getattr(inst, "small", self.small), "failed_checks": descs,
+                           "profiles_reproduced": okp, "bounds": inst.bounds}, f, indent=1)
+            return ("violation", path, descs[0])
         return ("inconclusive", last)
 
     def replay(self, path):
@@ -376,7 +418,7 @@ NUCLEO_ASSUME = [
 ]
 sort = KaniProp("nucleo", nucleo_props.sort_instances, "C18", shims=NUCLEO_SHIMS, gen_mod=nucleo_props,
                 functions=["par_sort::par_quicksort", "par_sort::recurse", "par_sort::{insertion_sort, shift_head, shift_tail, partial_insertion_sort, heapsort, partition, partition_in_blocks, partition_equal, choose_pivot, break_patterns}"],
-                assumptions=NUCLEO_ASSUME + ["tuning constants shrunk under --cfg nucleo_verif_small for the composite harnesses marked 'shrunk' (MAX_INSERTION 3, MAX_SEQUENTIAL 6, BLOCK 4, SHORTEST_SHIFTING 6, SHORTEST_MEDIAN_OF_MEDIANS 6); units and short composites use the real constants"],
+                assumptions=NUCLEO_ASSUME + ["tuning constants shrunk under --cfg nucleo_verif_small for the composite harnesses marked 'shrunk' (MAX_INSERTION 3, MAX_SEQUENTIAL 2, BLOCK 4, SHORTEST_SHIFTING 6, SHORTEST_MEDIAN_OF_MEDIANS 6); units and short composites use the real constants"],
                 outside=["slices longer than the per-tier bound (the property speaks of hundreds of thousands)", "the real BLOCK = 128 main loop (needs > 256 elements)",
                          "'same order for every thread count' is only covered as: the result is sorted under the comparator for every join order"])
 boxcar = KaniProp("nucleo", nucleo_props.boxcar_instances, "C08", shims=NUCLEO_SHIMS, gen_mod=nucleo_props,
@@ -407,6 +449,11 @@ utf32 = KaniProp("nucleo-matcher", matcher_props.utf32_instances, "C17",
                           "Display / Debug formatting (std formatting machinery)", "strings longer than the per-tier bound"])
 
 PROPS = {
+    "C06": proto,
+    "C07": proto,
+    "C12": proto,
+    "C13": proto,
+    "C19": proto,
     "C17": utf32,
     "C15": compose,
     "C20": proto,
